@@ -58,6 +58,15 @@ type vCase struct {
 	Cid      *vChainID   `json:"cid,omitempty"`
 	Raw      string      `json:"raw,omitempty"`
 	V        int32       `json:"v,omitempty"`
+	G        *vGenesis   `json:"g,omitempty"`
+}
+
+type vGenesis struct {
+	Cid       vChainID
+	Timestamp int64
+	BPs       []string
+	EBPs      [][3]string
+	Balance   map[string]string
 }
 
 type vChainID struct {
@@ -302,6 +311,29 @@ func TestVerifCodecEngine(t *testing.T) {
 			o["equals"] = o["dec"] != nil && func() bool { r := NewChainID(); r.Read(b); return cid.Equals(r) }()
 		case "CR": // ChainID.Read on arbitrary bytes
 			readCid(o, unhex(c.Raw))
+		case "G": // genesis info as stored by the chain DB: Genesis.Bytes / GetGenesisFromBytes (gob, Balance omitted by design)
+			g := &Genesis{ID: ChainID{Version: c.G.Cid.Version, PublicNet: c.G.Cid.Public, MainNet: c.G.Cid.Main,
+				Magic: string(unhex(c.G.Cid.Magic)), Consensus: string(unhex(c.G.Cid.Consensus))},
+				Timestamp: c.G.Timestamp, BPs: c.G.BPs, Balance: c.G.Balance}
+			for _, e := range c.G.EBPs {
+				g.EnterpriseBPs = append(g.EnterpriseBPs, EnterpriseBP{Name: e[0], Address: e[1], PeerID: e[2]})
+			}
+			b := g.Bytes()
+			o["enc_len"] = len(b)
+			if d := GetGenesisFromBytes(b); d != nil {
+				eb := [][3]string{}
+				for _, e := range d.EnterpriseBPs {
+					eb = append(eb, [3]string{e.Name, e.Address, e.PeerID})
+				}
+				bps := d.BPs
+				if bps == nil {
+					bps = []string{}
+				}
+				o["dec"] = &vGenesis{Cid: vChainID{Version: d.ID.Version, Public: d.ID.PublicNet, Main: d.ID.MainNet,
+					Magic: hx([]byte(d.ID.Magic)), Consensus: hx([]byte(d.ID.Consensus))}, Timestamp: d.Timestamp, BPs: bps, EBPs: eb, Balance: d.Balance}
+				o["balance_len"] = len(d.Balance)
+				o["orig_balance_kept"] = len(g.Balance) == len(c.G.Balance)
+			}
 		case "MC": // MakeChainId / DecodeChainIdVersion / ChainIdEqualWithoutVersion
 			raw := unhex(c.Raw)
 			o["decode_ver"] = DecodeChainIdVersion(raw)
